@@ -220,7 +220,7 @@ func GenerateContext(values []float64) *Context {
 
 	distinctCount := 1
 	for i := range values {
-		if i > 0 && values[i] != values[i-1] {
+		if i > 0 && math.Float64bits(values[i]) != math.Float64bits(values[i-1]) {
 			distinctCount++
 		}
 
